@@ -31,11 +31,18 @@ type Result struct {
 	Panic   string          `json:"panic,omitempty"`   // handler panicked outside instrumented regions
 	Timeout bool            `json:"timeout,omitempty"` // watchdog fired
 	Dump    string          `json:"dump,omitempty"`    // stderr of the worker (goroutine dump on timeout)
+	Recycle bool            `json:"recycle,omitempty"` // worker exits after this job; parent must start a new one
 }
 
 type Handler func(data json.RawMessage) (interface{}, error)
 
 var handlers = map[string]Handler{}
+
+var recycle bool
+
+// RequestRecycle makes the worker exit after the current job (its state is
+// poisoned, e.g. by an abandoned instance); the parent starts a new one.
+func RequestRecycle() { recycle = true }
 
 func Register(kind string, h Handler) { handlers[kind] = h }
 
@@ -53,9 +60,10 @@ func WorkerMain() {
 				os.Exit(3)
 			}
 			res := runJob(j)
+			res.Recycle = recycle || res.Panic != ""
 			enc.Encode(res)
 			out.Flush()
-			if res.Panic != "" {
+			if res.Panic != "" || recycle {
 				os.Exit(0) // state may be poisoned; parent respawns
 			}
 		}
@@ -134,6 +142,12 @@ func (p *Pool) spawn() (*worker, error) {
 	return w, nil
 }
 
+// exited reports whether the worker process has already terminated.
+func (w *worker) exited() bool {
+	time.Sleep(2 * time.Millisecond)
+	return w.cmd.Process.Signal(syscall.Signal(0)) != nil
+}
+
 func (w *worker) kill() {
 	if w == nil || w.cmd.Process == nil {
 		return
@@ -202,6 +216,9 @@ func (p *Pool) Map(kind string, datas []interface{}, onResult func(i int, r *Res
 				res := p.runOne(w, i, jb)
 				if res.Timeout || res.Panic != "" || res.Err == "worker died" {
 					w.kill()
+					w = nil
+				} else if res.Recycle {
+					w.stop()
 					w = nil
 				}
 				results[i] = res
